@@ -169,6 +169,16 @@ def check_tree(ctx, spec, akai, rng, n_paths):
     for junk in ["", " ", "/", "\\", "\\\\", "//", "a//b", "\\\\\\", "A", "A/", "A:/x", "..", "../..", "\x00", "a\nb", "é", "a/b/c/d/e/f", "(2)", " (2) L"]:
         cases.append(junk)
         expect.append(None)
+    # look-alike characters outside ASCII that no upper/lower-casing maps onto an ASCII letter (Kelvin sign, capital sharp s,
+    # full-width letters): such a path is another string and must not resolve (caseless matching by casefold() would accept them)
+    lookalike = []
+    for bp in base[:40]:
+        for a, b in (("K", "\u212a"), ("k", "\u212a"), ("SS", "\u1e9e"), ("ss", "\u1e9e"), ("A", "\uff21"), ("L", "\uff2c")):
+            if a in bp and b.upper() == b:
+                lookalike.append(bp.replace(a, b, 1))
+    for q in lookalike[:30]:
+        cases.append(q)
+        expect.append("must-not-resolve")
     asc = [i for i, p in enumerate(cases) if all(ord(c) < 128 for c in p)]
     mod = M.call_batch("parse_path", [[akai, mtree, C6.S(cases[i])] for i in asc])
     modres = dict(zip(asc, mod))
@@ -195,6 +205,9 @@ def check_tree(ctx, spec, akai, rng, n_paths):
             ctx.agree("parse_path", case, got, mres)
         ctx.require("lookup ends with the item or the 'was not found' message, never another exception", case,
                     got[0] in ("found", "notfound") and (got[0] != "notfound" or got[1]), got)
+        if ex == "must-not-resolve":
+            ctx.require("a path spelled with non-ASCII look-alike characters is another string: 'was not found'", case, got[0] == "notfound", got)
+            continue
         if ex is not None:
             ctx.require("path made of the printed names (decorated) resolves to exactly that item", dict(case, expected=ex), got == ("found", ex), got)
             if got[0] == "found":
